@@ -302,3 +302,90 @@ contract('mapproxy.response:Response.__call__', props=['C18'],
          opaque=['fixed_headers', 'status'],
          opaque_fields={'ok_to_seek': 'opaque'}, stable_fields=['ok_to_seek'],
          trace=[_response_sent, _response_body_kind])
+
+
+# ---- demo pages: request parameters reach the HTML/JS templates only through escape_html -------------------------------------------
+def _subterms18(t):
+    import z3
+    yield t
+    if z3.is_app(t):
+        for c in t.children():
+            for x in _subterms18(c):
+                yield x
+
+
+def _terms_of(v):
+    out = []
+    if hasattr(v, 't'):
+        out.append(v.t)
+    if hasattr(v, 'val'):
+        out += _terms_of(v.val)
+    if getattr(v, 'items', None):
+        for x in v.items:
+            out += _terms_of(x)
+    return out
+
+
+def _only_escaped_request_text(ex, st, post, result):
+    """taint propagation over the event trace: everything computed from `req` is request-derived, the result of any call that
+    takes a request-derived argument is request-derived as well - except escape_html, the sanitiser"""
+    import z3
+    req = post.env['req']
+    tainted = [req.t]
+
+    def term_tainted(t):
+        if any(t.eq(x) for x in tainted):
+            return True
+        if z3.is_app(t) and t.num_args() > 0:
+            # an entry looked up in a mapping is as trustworthy as the MAPPING (a configured layer selected by a request
+            # parameter is a configured object, not request text)
+            if t.decl().name().startswith(('opaque_item2_', 'opaque_item_')):
+                return term_tainted(t.arg(0))
+            return any(term_tainted(c) for c in t.children())
+        return False
+
+    def is_tainted(v):
+        return any(term_tainted(t) for t in _terms_of(v))
+    bad = []
+    subs = [e for i, e in T.evs(st, 'substitute')]
+    for e in st.trace:
+        if e.name == 'substitute':
+            for k, v in e.kwargs.items():
+                if is_tainted(v):
+                    bad.append(k)
+            continue
+        args = list(e.args) + list(e.kwargs.values()) + ([e.recv] if e.recv is not None else [])
+        if e.name != 'escape_html' and e.result is not None and any(is_tainted(a) for a in args):
+            tainted += _terms_of(e.result)
+    yield ('template_gets_request_text_only_escaped', z3.BoolVal(len(subs) == 1 and not bad),
+           'no template variable is computed from the request (req.args, ...) except through escape_html: a value derived from a '
+           'request parameter by any other route - parsed, looked up, re-formatted - does not reach the page')
+
+
+cls('mapproxy.service.demo:DemoServer', fields=dict(layers='opaque', tile_layers='opaque', image_formats='opaque', layer_srs='opaque',
+                                                   background='opaque', services='opaque', restful_template='opaque', md='opaque'))
+for _fn in ('_render_wms_template', '_render_tms_template', '_render_wmts_template'):
+    contract('mapproxy.service.demo:DemoServer.' + _fn, props=['C18'],
+             types=dict(template='opaque', req='opaque'), returns='opaque', default_callee='opaque',
+             opaque_spec={'escape_html': {'returns': 'str', 'pure': True}, 'get_template': {'pure': True}, 'SRS': {'pure': True},
+                          'bbox_for': {'returns': 'tuple[real,real,real,real]', 'pure': True}, 'base_config': {'pure': True},
+                          'substitute': {'pure': True}, 'values': {'returns': 'list[opaque]', 'pure': True},
+                          'replace': {'pure': True}, 'append': {'pure': True}},
+             opaque=['escape_html', 'get_template'],
+             opaque_fields={'tile_sets': 'list[tuple[opaque,opaque]]'}, stable_fields=['tile_sets'],
+             raises={'UnboundLocalError': True, 'KeyError': True},
+             loops={0: dict(inv=[], types={'tile_layer': 'opaque', 'wmts_layer': 'opaque'}), 1: dict(inv=[], types={'res': 'opaque'})},
+             trace=[_only_escaped_request_text])
+
+
+# ---- Request.host: total for every Host header (it is evaluated OUTSIDE the catch-all when the welcome page is built) ------------------
+cls('mapproxy.request.base:Request', fields=dict(environ='dict[str,str]'))
+contract('mapproxy.request.base:Request.host', props=['C18'],
+         types={}, returns='str', default_callee='opaque',
+         # keys the WSGI server always provides (PEP 3333)
+         requires=["'SERVER_NAME' in self.environ and 'SERVER_PORT' in self.environ and 'wsgi.url_scheme' in self.environ"],
+         opaque_spec={'url_scheme': {'returns': 'str', 'pure': True}},
+         opaque=['url_scheme'],
+         ensures=["implies('HTTP_X_FORWARDED_HOST' not in self.environ and 'HTTP_HOST' in self.environ and ':' not in self.environ['HTTP_HOST'], "
+                  "result == self.environ['HTTP_HOST'])"],
+         raises={})
